@@ -9,6 +9,9 @@
                 index of a discontinuous iecdf method, `np.sign` at 0, `round` at .5, `<` with equality on a computed
                 value, tied values where an unstable argsort decides).  There the float code may legitimately take
                 either side; the harness does not compare these elements and counts them.
+  * `ill=`      indices of the elements whose path goes through a cdf value clipped at a *tiny* threshold (`1e-10`):
+                the float code evaluates `ppf` there with a cancellation error of relative size ~1e-6 (`1 − |2p − 1|`
+                at `p = 1e-10` or `1 − 1e-10`), so the harness compares these elements with a relative tolerance.
   * `undef`     the guard predicate of the definition fails (the Python code divides by zero / produces NaN)
 -/
 import IbicusModel.Model.Proto
@@ -70,8 +73,10 @@ def bool? : String → Option Bool
 
 def flagIdx (fl : List Bool) : List Nat := Py.whereTrue fl
 
-def outF (vals : List Rat) (fl : List Bool) : String :=
-  showList showRat vals ++ " ties=" ++ showList toString (flagIdx fl)
+def outFI (vals : List Rat) (fl ill : List Bool) : String :=
+  showList showRat vals ++ " ties=" ++ showList toString (flagIdx fl) ++ " ill=" ++ showList toString (flagIdx ill)
+
+def outF (vals : List Rat) (fl : List Bool) : String := outFI vals fl []
 
 def noFlags (vals : List Rat) : List Bool := vals.map (fun _ => false)
 
@@ -110,6 +115,9 @@ def iecdfEvent (m : IecdfMethod) (n : Nat) (q : Rat) : Bool :=
 
 def orL (a b : List Bool) : List Bool := List.zipWith (fun x y => x || y) a b
 
+/-- a raw cdf value that `threshold_cdf_vals` moves, for a tiny threshold -/
+def clipTiny (t c : Rat) : Bool := decide (t < 1 / 1000000) && (decide (c < t) || decide (c > 1 - t))
+
 /-! ### per-op values and flags -/
 
 def qmNonparamFlags (d : Detrending) (obs H F : List Rat) : List Bool :=
@@ -119,6 +127,17 @@ def qmNonparamFlags (d : Detrending) (obs H F : List Rat) : List Bool :=
     | .no_detrending => F
   vals.map (fun v =>
     (d != .no_detrending && H.contains v) || iecdfEvent .inverted_cdf obs.length (ecdfStep1 H v))
+
+def qmParamIll (t : Rat) (d : Detrending) (_obs H F : List Rat) : List Bool :=
+  let vals : List Rat := match d with
+    | .additive => F.map (fun x => x - (mean F - mean H))
+    | .multiplicative => F.map (fun x => x / (mean F / mean H))
+    | .no_detrending => F
+  vals.map (fun v => clipTiny t (rs.cdf (rs.fit H) v))
+
+def ecdfmIll (t : Rat) (F : List Rat) : List Bool := F.map (fun x => clipTiny t (rs.cdf (rs.fit F) x))
+
+def qdmIll (em : EcdfMethod) (t : Rat) (F : List Rat) : List Bool := F.map (fun x => clipTiny t (ecdf1 em F x))
 
 def qdmFlags (tp : TrendPres) (em : EcdfMethod) (t : Rat) (c : Option Rat) (F : List Rat) (fo fh : Rat × Rat) :
     List Bool :=
@@ -134,6 +153,39 @@ def sdmAbsFlags (obs _H F : List Rat) : List Bool :=
   let fd := detrendConst F
   let back := (rankOf fd).map (fun i => sortedFlags.getD i false)
   orL back (F.map (dup F))
+
+def sdmAbsIll (obs H F : List Rat) : List Bool :=
+  let t := defaultCdfThreshold
+  let raw (x : List Rat) : List Rat := let xd := detrendConst x; xd.map (ratSigmoid.cdf (ratSigmoid.fit xd))
+  let anyOH := ((raw obs) ++ (raw H)).any (clipTiny t)
+  let cO := sdmAbsCdfIntpol ratSigmoid obs F.length
+  let cH := sdmAbsCdfIntpol ratSigmoid H F.length
+  let cF := sdmAbsCdfFut ratSigmoid F
+  let fd := detrendConst F
+  let rawF := takeIdx (raw F) (argsort fd)
+  let sortedIll := List.zipWith (fun (co : Rat) (p : Rat × Rat × Rat) =>
+      let riS := max 1 (sdmRecurrAbs co * sdmRecurrAbs p.2.1 / sdmRecurrAbs p.1)
+      anyOH || clipTiny t p.2.2 || clipTiny t (1 / 2 + signQ (co - 1 / 2) * Py.absQ (1 / 2 - 1 / riS)))
+    cO (cH.zip (cF.zip rawF))
+  (rankOf fd).map (fun i => sortedIll.getD i false)
+
+def sdmRelIll (thr t : Rat) (obs H F : List Rat) : List Bool :=
+  let rO := rainy thr (sortQ obs)
+  let rH := rainy thr (sortQ H)
+  let fS := takeIdx F (argsort F)
+  let rF := rainy thr fS
+  let raw (r : List Rat) : List Rat := r.map (rs.cdf (rs.fit r))
+  let anyOH := ((raw rO) ++ (raw rH)).any (clipTiny t)
+  let cF := sdmRelCdf rs t rF
+  let cO := interpOnLength (sdmRelCdf rs t rO) cF.length
+  let cH := interpOnLength (sdmRelCdf rs t rH) cF.length
+  let illBc := List.zipWith (fun (co : Rat) (p : Rat × Rat × Rat) =>
+      let riS := max 1 (sdmRecurrRel co * sdmRecurrRel p.2.1 / sdmRecurrRel p.1)
+      anyOH || clipTiny t p.2.2 || clipTiny defaultCdfThreshold (1 - 1 / riS))
+    cO (cH.zip (cF.zip (raw rF)))
+  let expected := sdmRelExpected rF.length rO.length obs.length rH.length H.length
+  let sortedIll := List.replicate (fS.length - expected) false ++ illBc.drop (illBc.length - expected)
+  (rankOf F).map (fun i => sortedIll.getD i false)
 
 def sdmRelFlags (thr : Rat) (obs H F : List Rat) : List Bool :=
   let rO := rainy thr (sortQ obs)
@@ -162,13 +214,16 @@ def cdftFlags (ssr : Bool) (d : DeltaShift) (em : EcdfMethod) (im : IecdfMethod)
 /-- year-window ops: flags travel through the same skeleton as 0/1 values -/
 def boolsToRat (l : List Bool) : List Rat := l.map (fun b => if b then 1 else 0)
 
-def outYears (r : Except String (List (Option Rat))) (fl : Except String (List (Option Rat))) : String :=
-  match r, fl with
-  | .ok v, .ok f =>
+def outYears (r : Except String (List (Option Rat))) (fl : Except String (List (Option Rat)))
+    (ill : Except String (List (Option Rat)) := .ok []) : String :=
+  match r, fl, ill with
+  | .ok v, .ok f, .ok i =>
     showOptList showRat v ++ " ties=" ++
-      showList toString (Py.whereTrue (f.map (fun o => decide (o = some 1))))
-  | .error e, _ => "error " ++ e
-  | _, .error e => "error " ++ e
+      showList toString (Py.whereTrue (f.map (fun o => decide (o = some 1)))) ++ " ill=" ++
+      showList toString (Py.whereTrue (i.map (fun o => decide (o = some 1))))
+  | .error e, _, _ => "error " ++ e
+  | _, .error e, _ => "error " ++ e
+  | _, _, .error e => "error " ++ e
 
 /-- split the concatenated draws of the year windows: window `k` consumes `|obs| + |H| + |F_window k|` draws -/
 def drawsByCentre (L S : Int) (years : List Int) (nO nH : Nat) (u : List Rat) : Int → List Rat :=
@@ -206,20 +261,21 @@ def step (line : String) : String :=
       | some d, some t, some o, some h, some f =>
         if ¬ qmGuard d o h f then "undef"
         else if mt = "parametric" then
-          if scalesOk ratSigmoid [o, h] then let v := qmParam rs t d o h f; outF v (noFlags v) else "undef"
+          if scalesOk ratSigmoid [o, h] then let v := qmParam rs t d o h f; outFI v (noFlags v) (qmParamIll t d o h f)
+          else "undef"
         else if mt = "nonparametric" then outF (qmNonparam d o h f) (qmNonparamFlags d o h f)
         else "bad-op"
       | _, _, _, _, _ => "bad-op"
   | ["ecdfm", t, o, h, f] => match parseRat? t, rats? o, rats? h, rats? f with
       | some t, some o, some h, some f =>
-        if scalesOk ratSigmoid [o, h, f] then let v := ecdfm rs t o h f; outF v (noFlags v) else "undef"
+        if scalesOk ratSigmoid [o, h, f] then let v := ecdfm rs t o h f; outFI v (noFlags v) (ecdfmIll t f) else "undef"
       | _, _, _, _ => "bad-op"
   | ["qdm", tp, em, t, c, o, h, f] =>
       match tp? tp, ecdfM? em, parseRat? t, censor? c, rats? o, rats? h, rats? f with
       | some tp, some em, some t, some c, some o, some h, some f =>
         if ¬ scalesOk ratSigmoid [o, h] ∨ f = [] then "undef"
         else if tp = .relative ∧ ¬ qdmRelGuard rs (ecdf1 em) t f (rs.fit h) then "undef"
-        else outF (qdmWindow rs tp em t c o h f) (qdmFlags tp em t c f (rs.fit o) (rs.fit h))
+        else outFI (qdmWindow rs tp em t c o h f) (qdmFlags tp em t c f (rs.fit o) (rs.fit h)) (qdmIll em t f)
       | _, _, _, _, _, _, _ => "bad-op"
   | ["qdmyears", tp, em, t, c, L, S, ys, o, h, f] =>
       match tp? tp, ecdfM? em, parseRat? t, censor? c, parseInt? L, parseInt? S, ints? ys, rats? o, rats? h, rats? f with
@@ -234,11 +290,13 @@ def step (line : String) : String :=
           | .ok gl => if gl.contains (some 1) then "undef"
               else outYears (qdmWindowYears rs tp em t c L S ys o h f)
                 (if ys.length ≠ f.length then .error "ValueError" else Model.Skeleton.applyYears g L S ys f)
+                (Model.Skeleton.applyYears (fun Fw _ => .ok (boolsToRat (qdmIll em t Fw))) L S ys f)
           | .error e => "error " ++ e
       | _, _, _, _, _, _, _, _, _, _ => "bad-op"
   | ["sdmabs", o, h, f] => match rats? o, rats? h, rats? f with
       | some o, some h, some f =>
-        if sdmAbsGuard ratSigmoid o h f then outF (sdmAbsolute ratSigmoid o h f) (sdmAbsFlags o h f) else "undef"
+        if sdmAbsGuard ratSigmoid o h f then outFI (sdmAbsolute ratSigmoid o h f) (sdmAbsFlags o h f) (sdmAbsIll o h f)
+        else "undef"
       | _, _, _ => "bad-op"
   | ["sdmrel", thr, t, o, h, f] => match parseRat? thr, parseRat? t, rats? o, rats? h, rats? f with
       | some thr, some t, some o, some h, some f =>
@@ -246,7 +304,7 @@ def step (line : String) : String :=
         | .error e => "error " ++ e
         | .ok v =>
           if scalesOk ratSigmoid [rainy thr (sortQ o), rainy thr (sortQ h), rainy thr (sortQ f)]
-              ∧ sdmRelDivGuard rs thr t h f then outF v (sdmRelFlags thr o h f)
+              ∧ sdmRelDivGuard rs thr t h f then outFI v (sdmRelFlags thr o h f) (sdmRelIll thr t o h f)
           else "undef"
       | _, _, _, _, _ => "bad-op"
   | ["cdft", d, em, im, ssr, o, h, f, u] =>
